@@ -315,6 +315,8 @@ def no_feedback(prog: Program, rep) -> None:
                         for m in own_nodes(fi.node):
                             if isinstance(m, ast.Name) and m.id == nm and isinstance(m.ctx, ast.Load):
                                 q = pm.get(id(m))
+                                if isinstance(q, ast.keyword):
+                                    q = pm.get(id(q))
                                 if not (isinstance(q, ast.Call) and ((dotted(q.func) or "") in ("StepControlResult", "StepResult") or (dotted(q.func) or "").endswith("from_step_result"))):
                                     ok = False
                 rep.check(ok, "observer-no-feedback", fi.qualname, U(node), "a condition estimate is read only to be displayed or forwarded in the rcond slot of a result", fi.loc(node))
@@ -337,7 +339,19 @@ def no_feedback(prog: Program, rep) -> None:
             if isinstance(node, ast.Name) and node.id == "display" and isinstance(node.ctx, ast.Load):
                 n += 1
                 par = pm.get(id(node))
-                ok = (isinstance(par, ast.If) and par.test is node) or (isinstance(par, ast.Call) and node in par.args and isinstance(par.func, ast.Attribute) and par.func.attr in ("step", "compute_step"))
+                # `if display:` / `if not display:` / `x if display else y`, or handed on as an argument (to step / compute_step, or
+                # to a helper that is observer code itself)
+                top = node
+                while isinstance(pm.get(id(top)), ast.UnaryOp) and isinstance(pm.get(id(top)).op, ast.Not):
+                    top = pm.get(id(top))
+                ptop = pm.get(id(top))
+                ok = (isinstance(ptop, (ast.If, ast.IfExp)) and ptop.test is top)
+                if not ok and isinstance(par, ast.Call) and (node in par.args or any(k.value is node for k in par.keywords)):
+                    if isinstance(par.func, ast.Attribute) and par.func.attr in ("step", "compute_step"):
+                        ok = True
+                    else:
+                        tg = [t for t in prog.resolve_call_target(m, par) if isinstance(t, FuncInfo)]
+                        ok = bool(tg) and all(is_observer_func(t) for t in tg)
                 rep.check(ok, "observer-no-feedback", m.qualname, U(par)[:60] if par is not None else "display", "the display flag is only tested by `if display:` or handed on as the display argument", m.loc(node))
     # slots of the controller used by observers only
     for fi in prog.iter_functions():
